@@ -78,6 +78,16 @@ def guarded(sub, model, hist, op, fn):
         sub.violation('%s:memory' % sub.prop.lower(), model.case(hist, op),
                       'execution exhausted memory: history %r, operation %r' % (hist, op))
         return False, None
+    except core.HarnessError:
+        raise
+    except Exception as e:
+        # an exception the model did not anticipate, raised by the code under test while replaying a history or
+        # observing a state: the execution cannot be judged against the reference, which is itself a finding
+        import traceback
+        sub.violation('%s:crash:%s' % (sub.prop.lower(), type(e).__name__), model.case(hist, op),
+                      'history %r, operation %r raised %s: %s' % (hist, op, type(e).__name__, e), None,
+                      traceback.format_exc()[-1200:])
+        return False, None
 
 
 def _expand(sub, args):
